@@ -23,7 +23,7 @@ func c17lRun(root string, cfg int) (before, after string, ok bool) {
 		ignore = ",\n \"IgnoreFileErrTypes\": [{\"File\": \"main.lua\", \"Types\": [6]}]"
 	}
 	verifVFSPut(root+"/luahelper.json", []byte("{\n \"BaseDir\": \"./\",\n \"ShowWarnFlag\": 1,\n \"ProjectFiles\": [\"main.lua\"]"+ignore+"\n}\n"))
-	verifVFSPut(root+"/main.lua", []byte("require(\"session\")\n\nlocal s = Session_new()\nSession_send(s, 1)\nlocal unused = 2\n"))
+	verifVFSPut(root+"/main.lua", []byte("require(\"session\")\n\nlocal function run()\n    local s = Session_new(\"gate\")\n    Session_send(s, \"hello\")\nend\n\nrun()\nlocal unused = 2\n"))
 	verifVFSPut(root+"/other.lua", []byte("other_global = 1\n"))
 	verifVFSDel(root + "/net/session.lua")
 	c08view = map[string]string{}
